@@ -259,18 +259,22 @@ class SamplerCore:
         d["logz_err"] = getattr(self, "logz_err", None)
 
         try:
-            # Remove pool-related attributes that can't be pickled
-            if hasattr(self.config, "pool") and self.config.pool is not None:
-                # The configuration is a frozen dataclass: detach the pool
-                # without going through its __setattr__, and always restore it.
-                pool_state = self.config.pool
-                object.__setattr__(self.config, "pool", None)
-                try:
-                    d["sampler"] = dill.dumps(self)
-                finally:
-                    object.__setattr__(self.config, "pool", pool_state)
-            else:
+            # Detach what cannot be pickled: the worker pool (the configuration is
+            # a frozen dataclass, so bypass its __setattr__) and the progress bar,
+            # which holds the process's stderr stream (not picklable when it is
+            # captured or replaced, e.g. under pytest or in a notebook).
+            pool_state = self.config.pool
+            pbar_holders = [self, self.reweighter, self.trainer, self.mutator]
+            pbar_states = [holder.pbar for holder in pbar_holders]
+            object.__setattr__(self.config, "pool", None)
+            for holder in pbar_holders:
+                holder.pbar = None
+            try:
                 d["sampler"] = dill.dumps(self)
+            finally:
+                object.__setattr__(self.config, "pool", pool_state)
+                for holder, pbar in zip(pbar_holders, pbar_states):
+                    holder.pbar = pbar
         except Exception as e:
             print(f"Error while saving state: {e}")
             raise
